@@ -1018,6 +1018,7 @@ func callBuiltin(caller *frame, callpos token.Pos, fn *ssa.Builtin, args []value
 			nb := *b
 			nb.prefix = string(bs) + b.prefix
 			nb.lenVar, nb.strVar = nil, nil
+			nb.tokens = nil // the cached stream (if any) lacks the prefix
 			ex.nblob++
 			nb.id = ex.nblob
 			return &nb
